@@ -562,7 +562,11 @@ pub(crate) async fn get_one_term(
             prefix: PREFIX_DEFAULT.to_string(),
             hash: term.hash.into(),
         };
-        cache.put(&key, &fetch_term.range, &chunk_byte_indices, &data)?;
+        // A failure to populate the cache (e.g. racing cache operations on the same key) must not
+        // fail the download: the data has been fetched successfully.
+        let _ = cache
+            .put(&key, &fetch_term.range, &chunk_byte_indices, &data)
+            .log_error("failed to write fetched range to the chunk cache, continuing");
     }
 
     // if the requested range is smaller than the fetched range, trim it down to the right data
